@@ -195,7 +195,7 @@ def check_group(w, rep, name, G, tier):
             if kind == "so2":
                 bp = MatVal(bp.r, bp.c, [[atan2_table(p) for p in row] for row in bp.cells])
             if kind in ("quat",) and rot_factor(w, G) is G:
-                rep.na("C01.right-inverse", "%s from_Matrix(to_Matrix(X))=X" % name, "decided branch by branch in C07 (Shepperd)")
+                rep.na("C01.right-inverse", "%s from_Matrix(to_Matrix(X))=X" % name, "decided selection by selection below (Shepperd, shared with C07.from-matrix)")
             else:
                 a_b = rot_slice(w, G)
                 if a_b and kind in ("quat", "mrp", "euler") and rot_factor(w, G) is not G:
@@ -381,6 +381,8 @@ def run(w, rep, tier):
     for nm, G in groups:
         check_group(w, rep, nm, G, tier)
     check_quaternion_tables(w, rep)
+    from .c07 import check_from_matrix
+    check_from_matrix(w, rep, R="C01.right-inverse", RV="C01.right-inverse", RS="C01.right-inverse")
     check_default_product(w, rep)
     prods = [("SO3Mrp*R3", ["SO3Mrp", "R3"]), ("SO3Quat*R3", ["SO3Quat", "R3"]), ("SE2*R2*SO2", ["SE2", "R2", "SO2"])]
     if tier == "thorough":
